@@ -257,6 +257,9 @@ class _STIXBase(collections.abc.Mapping):
                 continue
         self._defaulted_optional_properties = defaulted
 
+        # (copies and new versions are validated the way the original was)
+        self._interoperability = bool(interoperability)
+
         self._inner = setting_kwargs
 
         self._check_object_constraints()
@@ -321,7 +324,11 @@ class _STIXBase(collections.abc.Mapping):
         if isinstance(self, _Observable):
             # Assume: valid references in the original object are still valid in the new version
             new_inner['_valid_refs'] = {'*': '*'}
-        return cls(allow_custom=True, interoperability=False, **new_inner)
+        return cls(
+            allow_custom=True,
+            interoperability=getattr(self, "_interoperability", False),
+            **new_inner
+        )
 
     def properties_populated(self):
         return list(self._inner.keys())
